@@ -376,6 +376,13 @@ impl Store {
                         None => (None, 0),
                     };
 
+                    // The historical frames alone may already satisfy the limit
+                    if let Some(limit) = limit {
+                        if count >= limit {
+                            return;
+                        }
+                    }
+
                     let mut broadcast_rx = broadcast_rx;
                     while let Ok(frame) = broadcast_rx.recv().await {
                         // Skip frames that do not match the context_id
